@@ -25,7 +25,7 @@ LEVEL = "exploration"
 ENGINE = "vloop"
 BUDGET = {"quick": (400, 16), "thorough": (30000, 220)}
 WORKERS = {"quick": 4, "thorough": 16}
-REQUIRED = ["sequential", "queue_order", "outcome", "never_queued", "stop_restores"]
+REQUIRED = ["sequential", "queue_order", "outcome", "never_queued", "stop_restores", "inflight_not_queued", "killed_inflight_then_resubmitted"]
 TECHNIQUE = "runtime monitoring: real ClientPlayback on a virtual-time loop with an in-memory origin; ordered event-log checker"
 RULE = (
     "case = (1-8 flows of kinds replayable / live / intercepted / no-content / tcp / websocket / already-modified, per-flow origin plan, "
@@ -181,8 +181,24 @@ def run_case(ctx, r):
 
             if stop_at is not None:
                 loop.call_later(stop_at, do_stop)
+            kill_inflight = resubmit and r.random() < 0.5
+            result["kill_inflight"] = kill_inflight
+
+            def do_resubmit():
+                # optionally the user kills the flow that is being replayed right now, then submits everything again:
+                # the in-flight flow is not replayable (it is being replayed), whatever its live flag says
+                infl = cp.inflight
+                if kill_inflight and infl is not None and infl.killable:
+                    infl.kill()
+                    log.append(("kill_inflight", infl.request.path, loop.now()))
+                    result["killed_inflight"] = infl
+                log.append(("start_replay", None, loop.now()))
+                cp.start_replay([f for f in flows if isinstance(f, http.HTTPFlow)])
+                if infl is not None and cp.inflight is infl and any(q is infl for q in cp.queue._queue):
+                    result["inflight_queued_again"] = infl.request.path
+
             if resubmit:
-                loop.call_later(r.choice([0.2, 2.0, 10.0]), lambda: (log.append(("start_replay", None, loop.now())), cp.start_replay([f for f in flows if isinstance(f, http.HTTPFlow)])))
+                loop.call_later(r.choice([0.2, 0.6, 2.0, 10.0]), do_resubmit)
             # wait until drained (bounded)
             for _ in range(400):
                 await asyncio.sleep(0.5)
@@ -219,7 +235,7 @@ def classify(kind, info):
 def check(ctx, result, log):
     flows, kinds, before = result["flows"], result["kinds"], result["before"]
     path = lambda f: f.request.path if isinstance(f, http.HTTPFlow) else None  # noqa: E731
-    witness = {"kinds": kinds, "plans": {k: v for k, v in result["plans"].items()}, "stop_at": result.get("stop_at"), "resubmit": result.get("resubmit"), "log": [(a, b, round(c - 1_000_000, 3)) for a, b, c in log][:80]}
+    witness = {"kinds": kinds, "plans": {k: v for k, v in result["plans"].items()}, "stop_at": result.get("stop_at"), "resubmit": result.get("resubmit"), "kill_inflight": result.get("kill_inflight"), "log": [(a, b, round(c - 1_000_000, 3)) for a, b, c in log][:80]}
     replayable = [f for f, k in zip(flows, kinds) if k in ("ok", "modified")]
     # ---- never queued
     ctx.count("never_queued")
@@ -230,6 +246,11 @@ def check(ctx, result, log):
                 ctx.violation("unreplayable-flow-reached-origin", {**witness, "kind": k, "path": p})
             if state_wo_backup(f) != b:
                 ctx.violation("unreplayable-flow-was-modified", {**witness, "kind": k})
+    ctx.count("inflight_not_queued")
+    if result.get("killed_inflight") is not None:
+        ctx.count("killed_inflight_then_resubmitted")
+    if result.get("inflight_queued_again"):
+        ctx.violation("in-flight-flow-queued-again", {**witness, "path": result["inflight_queued_again"], "killed_first": result.get("killed_inflight") is not None})
     # ---- sequential + order (per submission epoch; resubmission makes order ambiguous -> only sequential is checked then)
     ctx.count("sequential")
     inflight = None
